@@ -137,14 +137,44 @@ theorem token_holder_enabled (h : Reach c n s) (e : Ev) (he : s.writeEvent = som
 /-- `bounded_bypass` (safety form of "every waiting writer is eventually admitted once its predecessors end"):
 the writer whose event is at position `k` of the queue in state `s` is, in every later state `s'`, the admission number
 `p = |admitted| + |token holder| + k` (counting from 0): exactly the `k` waiters before it and the token holder are
-admitted in between, nobody else; and every admission needs the previous transaction to have ended
-(`|admitted| = ends + [a transaction is open]`). -/
+admitted in between, nobody else, and it is not admitted before that (it is in `admitted` exactly when more than `p`
+writers have been admitted); every admission needs the previous transaction to have ended
+(`|admitted| = ends + [a transaction is open]`), so it is admitted after exactly `k + 1` further write-ends when a
+transaction is open in `s`. -/
 theorem bounded_bypass (h : Reach c n s) {k : Nat} {e : Ev} (hk : s.waiters[k]? = some e) (hs : ReachFrom c n s s') :
     s'.arrivals[s.admitted.length + (tokPart s).length + k]? = some (s.owner e) ∧
     (∀ hlt : s.admitted.length + (tokPart s).length + k < s'.admitted.length,
         s'.admitted[s.admitted.length + (tokPart s).length + k] = s.owner e) ∧
-    s'.admitted.length = s'.ends + (if s'.writeTxn = none then 0 else 1) :=
-  bounded_bypass_aux h hk hs
+    (s.owner e ∈ s'.admitted ↔ s.admitted.length + (tokPart s).length + k < s'.admitted.length) ∧
+    s'.admitted.length = s'.ends + (if s'.writeTxn = none then 0 else 1) := by
+  obtain ⟨h1, h2, h3⟩ := bounded_bypass_aux h hk hs
+  exact ⟨h1, h2, admitted_iff_position (reach_of_reachFrom h hs) h1, h3⟩
+
+/-- every writer arrives once: the arrival order has no repetition (so "position in the arrival order" is meaningful). -/
+theorem arrivals_nodup (h : Reach c n s) : s.arrivals.Nodup := (reach_invArr h).nodup
+
+/-
+Full statement of the liveness clause ("every waiting writer is eventually admitted once its predecessors end"), not
+proved: for every *weakly fair* infinite run `σ : Nat → State` of the system (each `σ (i+1)` a step of some thread `< n`
+from `σ i`, and no thread enabled from some point on forever without being scheduled), and every `i`, `t` with
+`(σ i).loc t` parked in `event.wait()`, there is `j ≥ i` with `t ∈ (σ j).admitted`.
+It needs a scheduler-fairness hypothesis and the liveness half of the `threading` contract (an `acquire` of a free lock
+and a `wait` on a set event do return), which are outside what the model states.  What is proved instead, for every
+interleaving, is the safety core from which the fair-run argument is a routine ranking argument
+(rank = `(k, lockFuel, program points left)`): the queue position only decreases (`bounded_bypass`), somebody can
+always move (`deadlock_free`), and the thread that must move next for `t` to advance (lock holder, else owner of the
+open transaction, else token holder) is itself enabled (`lock_hold_bounded`, `token_holder_enabled`).
+-/
+/-- partial form of the liveness clause: a parked writer is never stuck forever *for lack of an enabled step*: its event
+is queued or is the token; some thread can move; and if it holds the token and the lock is free, it can move itself. -/
+theorem eventually_admitted_partial (h : Reach c n s) (t : Tid) (ht : t < n) (hw : (s.loc t).pc = .wWait) :
+    (∃ e, (s.loc t).ev = some e ∧ (e ∈ s.waiters ∨ s.writeEvent = some e)) ∧
+    (∃ u, u < n ∧ (step c s u).isSome) ∧
+    (∀ e, (s.loc t).ev = some e → s.writeEvent = some e → s.lock = none → (step c s t).isSome) := by
+  refine ⟨queue_complete h t hw, deadlock_free h t ht (by rw [hw]; decide), ?_⟩
+  intro e he hwe hl
+  have := token_holder_enabled h e hwe hl
+  rwa [(token_unique h e hwe).2.2.2 t he]
 
 /-- `serial_equivalence`: "the final zone equals the serial application of the committed transactions in admission
 order": `zone.nodes` is the fold of the bodies of the committed transactions, which are the admitted committing
@@ -219,5 +249,38 @@ def demoSchedule : List Tid :=
 
 example : ∃ s, run demoCfg init demoSchedule = some s ∧ s.writeTxn = none ∧ s.writeEvent = some 0 ∧ s.waiters = [1] ∧
     s.admitted = [0] ∧ s.arrivals = [0, 1, 2] ∧ s.nodes = [0] := ⟨_, rfl, rfl, rfl, rfl, rfl, rfl, rfl⟩
+
+/-- the state after `demoSchedule` -/
+def demoState : State := (run demoCfg init demoSchedule).getD init
+
+theorem demo_reach : Reach demoCfg 3 demoState :=
+  reach_of_run demoSchedule demoState (by decide) rfl
+
+-- hypotheses of `token_set` / `token_unique` / `token_holder_enabled` (token out, lock free)
+example : demoState.writeEvent = some 0 ∧ demoState.lock = none ∧ demoState.owner 0 = 1 := ⟨rfl, rfl, rfl⟩
+-- hypotheses of `queue_sound` / `bounded_bypass` (a non-empty queue: writer 2 at position 0, behind the token holder 1)
+example : demoState.waiters[0]? = some 1 ∧ demoState.owner 1 = 2 ∧ (tokPart demoState).length = 1 := ⟨rfl, rfl, rfl⟩
+-- hypotheses of `queue_complete` (a thread parked in `event.wait()`), of `deadlock_free` (an unfinished thread)
+example : (demoState.loc 1).pc = .wWait ∧ (demoState.loc 2).pc ≠ .done := ⟨rfl, by decide⟩
+-- `bounded_bypass` instantiated: writer 2 is admission number 2 (after 0 and the token holder 1) in every later state
+example (s' : State) (hs : ReachFrom demoCfg 3 demoState s') : (2 ∈ s'.admitted ↔ 2 < s'.admitted.length) :=
+  (bounded_bypass demo_reach (k := 0) (e := 1) rfl hs).2.2.1
+
+/-- one writer and one reader: the reader is admitted while the write transaction is open and sees the old version -/
+def demoCfgR : Cfg := ⟨fun t => if t = 0 then .writer true else .reader, fun t x => x ++ [t + 7]⟩
+def demoScheduleR : List Tid :=
+  [0, 0, 0, 0, 0, 0, 0, 0, 0, 0, 0,    -- writer 0 admitted, version set up, body run
+   1, 1, 1, 1, 1, 1,                  -- reader 1: call, acquire, pick, register, release, return
+   0, 0, 0, 0,                        -- writer 0: acquire, append version, prune, publish nodes
+   1]                                 -- reader 1 reads
+def demoStateR : State := (run demoCfgR init demoScheduleR).getD init
+
+theorem demoR_reach : Reach demoCfgR 2 demoStateR :=
+  reach_of_run demoScheduleR demoStateR (by decide) rfl
+
+-- hypotheses of `readers_atomic` / `readers_nonblocking` / `lock_hold_bounded`: a reader holding version 1 while version 2
+-- exists, the writer inside its commit section
+example : readerHasPc (demoStateR.loc 1).pc = true ∧ (demoStateR.loc 1).seen = [] ∧ demoStateR.versions = [(1, []), (2, [7])] ∧
+    demoStateR.lock = some 0 ∧ demoCfgR.role 1 = .reader ∧ demoStateR.nodes = [7] := ⟨rfl, rfl, rfl, rfl, rfl, rfl⟩
 
 end C12
